@@ -84,7 +84,8 @@ func (l lagCtx) Deadline() (time.Time, bool) { return l.dl, true }
 // goroutines to settle: the next step races with whatever became runnable at that instant. "wait" is
 // synctest.Wait(). "collect" receives (blocking, in a helper goroutine) every tick that arrives until the
 // bubble is quiescent - unlike "wait; poll" it also sees several ticks sent at one virtual instant (the
-// channel holds one tick; a tick that finds it full is dropped); used by monitors-only scripts. "stop" is Stop() followed at once by a non-blocking drain of the channel (a tick
+// channel holds one tick; a tick that finds it full is dropped); for the model it is a sequence of
+// "poll tick T" followed by "settle". "stop" is Stop() followed at once by a non-blocking drain of the channel (a tick
 // found there was sent before Stop returned).
 type TStep struct {
 	Op string `json:"op"`
@@ -384,6 +385,7 @@ func runTicker(t *testing.T, steps []TStep, seed int64) tickerRun {
 				poll(false)
 			}
 			got = nil
+			r.lines = append(r.lines, "settle")
 			settled = true
 		}
 		poll = func(drainAfterStop bool) {
@@ -1501,7 +1503,10 @@ func TestVerif(t *testing.T) {
 		}
 		for _, viaReset := range []bool{false, true} {
 			for i := 0; i < reps; i++ {
-				x.do(Case{Kind: "ticker", Steps: extremeTicker(p[0], p[1], viaReset, tail), Seed: seed(), NoModel: true}, "ticker-extreme")
+				// the model side samples the two ends of the range of draws for large jitter (Model.XTime.randChoices):
+				// sound as long as the script lets no virtual time pass (every timer of a correct ticker is then
+				// still in the future, whatever was drawn)
+				x.do(Case{Kind: "ticker", Steps: extremeTicker(p[0], p[1], viaReset, tail), Seed: seed(), NoModel: tail > 0}, "ticker-extreme")
 			}
 		}
 	}
